@@ -359,7 +359,7 @@ func runMergeGuards(c *core.Ctx) {
 	// the paths on which the verdict may be true: the post-EOSE pass-through (all-done
 	// answered true) and the forwarding paths; what every forwarding path has tested is
 	// what guards forwarding — however the function spells its returns
-	truePaths, okp := an.ResultPaths(fn, 0, true)
+	truePaths, okp := an.ResultPathsDeep(fn, 0, true)
 	if !okp {
 		c.Unknown(nil, fname(c, fn), "returns", P.Pos(fn.Pos()), "too many paths")
 		return
@@ -384,15 +384,16 @@ func runMergeGuards(c *core.Ctx) {
 	// (a) order guard
 	{
 		var cmpCall *ssa.Call
-		an.Instrs(fn, func(in ssa.Instruction) {
-			if call, ok := in.(*ssa.Call); ok && strings.HasPrefix(an.CalleeName(&call.Call), "cmp.Compare") {
-				cmpCall = call
+		var cmpOcc an.Occ
+		an.Region(fn, nil, func(o an.Occ) {
+			if call, ok := o.In.(*ssa.Call); ok && strings.HasPrefix(an.CalleeName(&call.Call), "cmp.Compare") {
+				cmpCall, cmpOcc = call, o
 			}
 		})
 		good := false
 		detail := "no comparison of the last forwarded event's created_at with the new one"
 		if cmpCall != nil {
-			a, b := an.PathOf(cmpCall.Call.Args[0]), an.PathOf(cmpCall.Call.Args[1])
+			a, b := cmpOcc.Path(cmpCall.Call.Args[0]), cmpOcc.Path(cmpCall.Call.Args[1])
 			last := "recv.lastEvent[" + sub + "].Event.CreatedAt"
 			cur := msg + ".Event.CreatedAt"
 			fr := an.Frame{IsSubject: func(v ssa.Value) bool { return v == ssa.Value(cmpCall) }, Term: func(v ssa.Value) (int64, bool) { return an.ConstInt(v) }}
@@ -400,13 +401,13 @@ func runMergeGuards(c *core.Ctx) {
 			fwdSet := an.Empty()
 			skipOK := true
 			for _, p := range fwd {
-				if p.Path.Contains(cmpCall.Block()) {
+				if p.Visits(cmpCall.Block()) {
 					fwdSet = fwdSet.Union(p.Meaning(fr))
 					continue
 				}
 				// the comparison is skipped only when there is no last event
 				if !p.Has(func(g an.Cond) bool {
-					is, nn := nilTest(g.V, "recv.lastEvent["+sub+"]")
+					is, nn := nilTestPath(g, "recv.lastEvent["+sub+"]")
 					return is && g.True != nn
 				}) {
 					skipOK = false
@@ -433,10 +434,10 @@ func runMergeGuards(c *core.Ctx) {
 	// (b) seen-set consulted and updated with the event id
 	{
 		seenKey := "recv.seen[" + sub + "][" + msg + ".Event.ID]"
-		consulted := an.AllHave(fwd, func(g an.Cond) bool { return an.PathOf(g.V) == seenKey && !g.True })
+		consulted := an.AllHave(fwd, func(g an.Cond) bool { return g.Path(g.V) == seenKey && !g.True })
 		var upd []*ssa.BasicBlock
-		an.Instrs(fn, func(in ssa.Instruction) {
-			if mu, ok := in.(*ssa.MapUpdate); ok && an.PathOf(mu.Map) == "recv.seen["+sub+"]" && an.PathOf(mu.Key) == msg+".Event.ID" && isConstBool(mu.Value, true) {
+		an.Region(fn, nil, func(o an.Occ) {
+			if mu, ok := o.In.(*ssa.MapUpdate); ok && o.Path(mu.Map) == "recv.seen["+sub+"]" && o.Path(mu.Key) == msg+".Event.ID" && isConstBool(mu.Value, true) {
 				upd = append(upd, mu.Block())
 			}
 		})
@@ -444,7 +445,7 @@ func runMergeGuards(c *core.Ctx) {
 		for _, p := range fwd {
 			on := false
 			for _, b := range upd {
-				if p.Path.Contains(b) {
+				if p.Visits(b) {
 					on = true
 				}
 			}
@@ -459,7 +460,7 @@ func runMergeGuards(c *core.Ctx) {
 		matcher := "recv.matcher[" + sub + "]"
 		onMatcher := func(g an.Cond, method string) *ssa.Call {
 			call, ok := g.V.(*ssa.Call)
-			if !ok || !call.Call.IsInvoke() || an.PathOf(call.Call.Value) != matcher || call.Call.Method.Name() != method {
+			if !ok || !call.Call.IsInvoke() || g.Path(call.Call.Value) != matcher || call.Call.Method.Name() != method {
 				return nil
 			}
 			return call
@@ -467,7 +468,7 @@ func runMergeGuards(c *core.Ctx) {
 		done := an.AllHave(fwd, func(g an.Cond) bool { return onMatcher(g, "Done") != nil && !g.True })
 		lm := an.AllHave(fwd, func(g an.Cond) bool {
 			call := onMatcher(g, "LimitMatch")
-			return call != nil && g.True && an.PathOf(call.Call.Args[0]) == msg+".Event"
+			return call != nil && g.True && g.Path(call.Call.Args[0]) == msg+".Event"
 		})
 		plain := false
 		for _, p := range fwd {
@@ -482,13 +483,33 @@ func runMergeGuards(c *core.Ctx) {
 	{
 		okIs := an.AllHave(fwd, func(g an.Cond) bool {
 			if call := isCallTo(g.V, "ReqState).IsEOSE"); call != nil {
-				return !g.True && an.PathOf(call.Call.Args[1]) == sub
+				return !g.True && g.Path(call.Call.Args[1]) == sub
 			}
 			// the flag read in place: this child's entry of the subscription's EOSE flags is false
-			return !g.True && an.PathOf(g.V) == "recv.eose["+sub+"][*]"
+			return !g.True && g.Path(g.V) == "recv.eose["+sub+"][*]"
 		})
 		c.Check(okIs, nil, fname(c, fn), "child-not-done", P.Pos(fn.Pos()), "stored events of a child that already sent its EOSE are not merged", "events of a child that already sent EOSE are merged before the overall EOSE")
 	}
+}
+
+// nilTestPath: like nilTest, for a condition that may have been tested inside a helper.
+func nilTestPath(g an.Cond, ap string) (bool, bool) {
+	b, ok := g.V.(*ssa.BinOp)
+	if !ok || (b.Op != token.EQL && b.Op != token.NEQ) {
+		return false, false
+	}
+	var other ssa.Value
+	if an.IsNilConst(b.Y) {
+		other = b.X
+	} else if an.IsNilConst(b.X) {
+		other = b.Y
+	} else {
+		return false, false
+	}
+	if g.Path(other) != ap {
+		return false, false
+	}
+	return true, b.Op == token.NEQ
 }
 
 func mustPaths(fn *ssa.Function, b *ssa.BasicBlock) []an.Path {
@@ -821,10 +842,12 @@ func runOkAgg(c *core.Ctx) {
 		return
 	}
 	c.CountFuncs(3)
-	// partition by Accepted
+	// partition by Accepted: the append sites (in Msg or a private helper it calls) that run
+	// under "Accepted" and under "not Accepted"; a list is identified by the sites that feed it
+	polarity := map[*ssa.Call]bool{}
 	var accLists, rejLists []string
-	an.Instrs(msgFn, func(in ssa.Instruction) {
-		call, ok := in.(*ssa.Call)
+	an.Region(msgFn, nil, func(o an.Occ) {
+		call, ok := o.In.(*ssa.Call)
 		if !ok {
 			return
 		}
@@ -832,25 +855,64 @@ func runOkAgg(c *core.Ctx) {
 		if !ok || b.Name() != "append" {
 			return
 		}
-		for _, g := range an.Guards(msgFn, call.Block()) {
+		for _, g := range an.Guards(call.Parent(), call.Block()) {
 			if strings.HasSuffix(an.PathOf(g.V), ".Accepted") {
-				// identify the list by the phi it feeds
-				id := ""
-				if call.Referrers() != nil {
-					for _, r := range *call.Referrers() {
-						if ph, ok := r.(*ssa.Phi); ok {
-							id = ph.Comment
-						}
-					}
-				}
+				polarity[call] = g.True
 				if g.True {
-					accLists = append(accLists, id)
+					accLists = append(accLists, P.Pos(call.Pos()))
 				} else {
-					rejLists = append(rejLists, id)
+					rejLists = append(rejLists, P.Pos(call.Pos()))
 				}
 			}
 		}
 	})
+	// the append sites a list value may come from (through phis and helper results)
+	var feeds func(v ssa.Value, seen map[ssa.Value]bool) []*ssa.Call
+	feeds = func(v ssa.Value, seen map[ssa.Value]bool) []*ssa.Call {
+		v = an.Unwrap(v)
+		if v == nil || seen[v] {
+			return nil
+		}
+		seen[v] = true
+		switch x := v.(type) {
+		case *ssa.Phi:
+			var out []*ssa.Call
+			for _, e := range x.Edges {
+				out = append(out, feeds(e, seen)...)
+			}
+			return out
+		case *ssa.Call:
+			if b, isB := x.Call.Value.(*ssa.Builtin); isB && b.Name() == "append" {
+				return append([]*ssa.Call{x}, feeds(x.Call.Args[0], seen)...)
+			}
+		case *ssa.Extract:
+			if hc, isCall := x.Tuple.(*ssa.Call); isCall {
+				if h := an.StaticCallee(&hc.Call); an.PrivateHelper(h) {
+					var out []*ssa.Call
+					for _, rb := range an.ReturnBlocks(h) {
+						rv := an.ReturnValues(an.LastInstr(rb).(*ssa.Return))
+						if x.Index < len(rv) {
+							out = append(out, feeds(rv[x.Index], seen)...)
+						}
+					}
+					return out
+				}
+			}
+		}
+		return nil
+	}
+	onlyPolarity := func(v ssa.Value, want bool) bool {
+		fs := feeds(v, map[ssa.Value]bool{})
+		if len(fs) == 0 {
+			return false
+		}
+		for _, f := range fs {
+			if p, known := polarity[f]; !known || p != want {
+				return false
+			}
+		}
+		return true
+	}
 	// return join(rejected) iff len(rejected) > 0, else join(accepted)
 	okRet := false
 	detail := ""
@@ -860,25 +922,21 @@ func runOkAgg(c *core.Ctx) {
 			continue
 		}
 		arg := call.Call.Args[0]
-		ph, isPhi := arg.(*ssa.Phi)
-		name := ""
-		if isPhi {
-			name = ph.Comment
-		}
 		guardedByLen := false
 		for _, g := range an.Guards(msgFn, rb) {
 			if b, ok := g.V.(*ssa.BinOp); ok && strings.HasPrefix(an.PathOf(b.X), "len(") && g.True && b.Op == token.GTR {
 				if k, isK := an.ConstInt(b.Y); isK && k == 0 {
-					if lp, ok := b.X.(*ssa.Call); ok && lp.Call.Args[0] == arg {
+					if lp, ok := b.X.(*ssa.Call); ok && (lp.Call.Args[0] == arg || onlyPolarity(lp.Call.Args[0], false)) {
 						guardedByLen = true
 					}
 				}
 			}
 		}
-		if guardedByLen && len(rejLists) == 1 && name == rejLists[0] {
+		isRej := onlyPolarity(arg, false)
+		if guardedByLen && isRej {
 			okRet = true
 		}
-		detail += fmt.Sprintf("[join(%s) guardedByLen=%v] ", name, guardedByLen)
+		detail += fmt.Sprintf("[join(rejecting replies only: %v) guardedByLen=%v] ", isRej, guardedByLen)
 	}
 	c.Check(okRet && len(accLists) == 1 && len(rejLists) == 1, nil, fname(c, msgFn), "verdict", P.Pos(msgFn.Pos()), "children's replies are split by Accepted; if any child rejected, the reply is built from the rejecting ones only (so it is rejecting and starts with the first rejecting reason), otherwise from the accepting ones",
 		"the aggregated OK is not 'rejecting iff some child rejected, rejecting reasons first': "+detail)
